@@ -11,7 +11,7 @@ import vlib, cases
 from ledger import vdrive
 
 MC = dict(Contents={"c1", "c2"}, Encs={"canonical", "whitespace", "keyOrder"}, MaxH=3, Deviations=set())
-FAMILIES = ["benign", "stake", "deleg", "alleg", "eth", "erc20", "gov", "ons", "olvm"]
+FAMILIES = ["benign", "stake", "deleg", "alleg", "eth", "erc20", "gov", "ons", "olvm", "bid"]
 
 
 def run(ctx, replay):
